@@ -48,6 +48,14 @@ also when that flush is cancelled. CONNECT and QoS 0 PUBLISH just go on to their
 def discDone (w : World) (which : Nat) : World :=
   if which = 0 then w else if which = 1 then w else w.handleDisconnect
 
+/-- `perform_outbound_step` cannot prepare the packet: a queued acknowledgement or PUBREL that this
+connection cannot carry (it was queued under an earlier, larger Maximum Packet Size) closes the
+connection — `handle_disconnect()` before the error is returned; a retained packet that does not fit
+just fails the call (finding F14), except inside `disconnect` (`discFail`). -/
+def failStep (w : World) (ctx : StepCtx) : Outbound.Step → World
+  | .retained _ _ _ _ => w.discFail ctx
+  | _ => w.handleDisconnect
+
 def opKindName : OpKind → String
   | .pub1 => "pub1"
   | .pub2 => "pub2"
@@ -203,7 +211,7 @@ def performStep : Nat → World → StepCtx → Outbound.Step → Nat → World
   | 0, w, _, _, _ => w.emit "fuel"
   | fuel + 1, w, ctx, step, now =>
     match prepareStep w step with
-    | .fail e => (w.discFail ctx).finishErr (ctxName ctx) e
+    | .fail e => (w.failStep ctx step).finishErr (ctxName ctx) e
     | .done => stepReturned fuel w ctx false
     | .flush pkt =>
       if !w.live then (w.discFail ctx).finishErr (ctxName ctx) .disconnected
